@@ -100,6 +100,57 @@ fn rand_amount(r: &mut ChaCha8Rng) -> u64 {
     }
 }
 
+/// Step inputs whose exact quotient lies within a few 2^-64 of an integer (solved for the liquidity):
+/// next price when token A is the fixed side, p' = L*p*2^64 / (L*2^64 +/- a*p), and the token-A amount of a price
+/// move, L*2^64*(p1-p0) / (p0*p1).  Big-number arithmetic of the harness' own U256 (uint crate), not the program's.
+fn near_integer_cases(r: &mut ChaCha8Rng) -> Vec<(u64, u32, u128, u128, u128, bool, bool)> {
+    use ethnum::U256;
+    let mut v = vec![];
+    let q64 = U256::from(1u128) << 64u32;
+    let fits = |x: U256| -> Option<u128> { if x.into_words().0 == 0 { Some(x.as_u128()) } else { None } };
+    // a price: half of the time in [2^63, 2^64) (two-word result of the three-word division), else anywhere
+    let p: u128 = if r.gen_bool(0.5) { (1u128 << 63) + (r.gen::<u128>() % (1u128 << 63)) } else { rand_price(r) };
+    let a: u64 = (log_u128(r, 50) as u64).max(2);
+    let dmax = (((a / 2) as f64).sqrt() as u128).max(1);
+    let delta: u128 = 1 + r.gen::<u128>() % dmax;
+    let rate = [0u32, 3000, 10000][r.gen_range(0..3)];
+    // (1) exact-in a->b: the price falls to about p - delta for a net budget of a
+    if p > MIN_SQRT_PRICE + delta + 1 {
+        let q = p - delta;
+        let l0 = U256::from(q) * U256::from(a as u128) * U256::from(p) / (q64 * U256::from(delta));
+        for k in [0u128, 1, 2] {
+            if let Some(l) = fits(l0 + U256::from(k)) {
+                let gross = ((a as u128) * 1_000_000).div_ceil(1_000_000 - rate as u128);
+                if gross <= u64::MAX as u128 {
+                    v.push((gross as u64, rate, l, p, MIN_SQRT_PRICE.max(p - p / 4), true, true));
+                }
+            }
+        }
+    }
+    // (2) exact-out b->a: the price rises to about p + delta to deliver a
+    if p + delta < MAX_SQRT_PRICE {
+        let q = p + delta;
+        let l0 = U256::from(q) * U256::from(a as u128) * U256::from(p) / (q64 * U256::from(delta));
+        for k in [0u128, 1, 2] {
+            if let Some(l) = fits(l0 + U256::from(k)) {
+                v.push((a, rate, l, p, MAX_SQRT_PRICE.min(p + p / 4), false, false));
+            }
+        }
+    }
+    // (3) the token-A amount of a whole segment (target reached): an amount just above / below an integer, often >= 2^63
+    let p0: u128 = (1u128 << 64) + r.gen::<u128>() % (1u128 << r.gen_range(40..66));
+    let p1: u128 = p0 + 1 + r.gen::<u128>() % (p0 / 4);
+    let amt: u128 = if r.gen_bool(0.6) { (1u128 << 63) + r.gen::<u128>() % (1u128 << 63) } else { log_u128(r, 63).max(2) };
+    let l0 = U256::from(amt) * U256::from(p0) * U256::from(p1) / (q64 * U256::from(p1 - p0));
+    for k in [0u128, 1] {
+        if let Some(l) = fits(l0 + U256::from(k)) {
+            v.push((u64::MAX, 0, l, p1, p0, true, true));        // exact-in a->b takes ceil(amount of A)
+            v.push((u64::MAX, 0, l, p0, p1, false, false));      // exact-out b->a pays floor(amount of A)
+        }
+    }
+    v
+}
+
 fn step_event(out: &mut Out, rem: u64, rate: u32, liq: u128, pc: u128, pt: u128, exact_in: bool, a_to_b: bool, why: &str) {
     let r = match std::panic::catch_unwind(|| compute_swap(rem, rate, liq, pc, pt, exact_in, a_to_b)) {
         Ok(r) => r,
@@ -178,6 +229,14 @@ pub fn steps(seed: u64, n: usize, out: &mut Out) {
             };
             for t in targets {
                 step_event(out, t, rate, liq, pc, pt, exact_in, a_to_b, "budget");
+                count += 1;
+            }
+        }
+        // quotients just above / below an integer: the rounding of the next price (token A fixed) and of the token-A
+        // amount decides on the last bit of a multi-word division
+        if r.gen_bool(0.25) {
+            for (rem, rate2, l2, c2, t2, ei, ab) in near_integer_cases(&mut r) {
+                step_event(out, rem, rate2, l2, c2, t2, ei, ab, "nearint");
                 count += 1;
             }
         }
